@@ -153,7 +153,8 @@ def drive(mod, prop, tier, seed, budget_s, max_runs, selftest_n, nworkers=None, 
     evidence = dict(property_id=prop, tier=tier, seed=seed, level='exploration', coverage=cov,
                     assumptions=mod.ASSUMPTIONS, wall_s=round(wall, 2), violations=0)
 
-    evidence['_digests'] = {str(i): [s_.get('digest'), bool(s_.get('violations'))] for i, s_ in summaries.items()}
+    evidence['_digests'] = {str(i): [s_.get('digest'), bool(s_.get('violations')), s_.get('trace_hash'),
+                                      (s_.get('oracle') or {}).get('timeouts', 0)] for i, s_ in summaries.items()}
     code = EXIT_OK
     if mismatches:
         harness_errors.append(f'determinism self-test failed for runs {mismatches[:10]}')
